@@ -49,7 +49,7 @@ pub(super) fn build_type_lookup(
 				.collect();
 			let struct_decl = syn::ItemStruct {
 				attrs: Default::default(),
-				vis: syn::Visibility::Inherited,
+				vis: syn::Visibility::Public(Default::default()),
 				struct_token: syn::token::Struct::default(),
 				ident: type_lookup_ident.clone(),
 				generics: syn::Generics {
